@@ -165,6 +165,7 @@ func isFlagSet(name string) bool {
 // owning one solver process.
 func (w *World) runHarness(h *Harness, workers int, solverKind string, nvalid int) *HarnessResult {
 	t0 := time.Now()
+	abstractHashLen = h.AbstractLen
 	res := &HarnessResult{Name: h.Name, Pkg: h.Pkg, Reached: map[string]int{}, Funcs: map[string]int{}, Unwind: h.Unwind, StrLen: h.StrLen}
 	var mu sync.Mutex
 	queue := [][]int{{}}
